@@ -159,7 +159,7 @@ pub fn ambient_conf(scenario_digest: u64) -> Conf {
         6 => SchedKind::RoundRobin,
         _ => SchedKind::NewestFirst,
     };
-    Conf { cpu, sched: SchedSpec { kind, seed, hold: crate::sched::hold_for_seed(seed) }, trace: None }
+    Conf { cpu, sched: SchedSpec { kind, seed, hold: crate::sched::hold_for_seed(seed), callers: crate::sched::callers_for_seed(seed) }, trace: None }
 }
 
 /// Call `f` with the simulated CPU count `cpu` (inside the ambient execution, which schedules whatever
